@@ -37,7 +37,7 @@ struct Out {
 fn one_config(i: usize, seed: u64, reps: usize, thorough: bool) -> Out {
     let mut rng = ChaCha8Rng::seed_from_u64(seed ^ 0xc09 ^ (i as u64).wrapping_mul(0x9e3779b97f4a7c15));
     let n = 2 + i % 3;
-    let ands = if thorough && i % 17 == 0 { 1001 } else { [0usize, 1, 2, 3, 6, 10][i % 6] };
+    let ands = if thorough && i % 17 == 0 { 1001 } else if i % 3 == 1 { (i * 7 + seed as usize) % 101 } else { [0usize, 1, 2, 3, 6, 10, 13, 26][i % 8] };
     let mut cfg = circ::random_gen_cfg(&mut rng, n, ands);
     if ands > 500 { cfg.others = 50; cfg.extra_regs = 30; cfg.reuse_pct = 50; }
     // wide circuits: thousands of registers (message vectors are sized by max_reg_count) and many outputs
